@@ -62,8 +62,8 @@ CLAIMS = {
     "C05": _c("Same executions as C04, judged by a delivery-protocol validator: every id announced once before use and never "
               "reused, every incremental entry targets a pending id and an existing object or list, every announced id completed "
               "exactly once, no nested fragment announced while its enclosing announced fragment is pending, stream items in order "
-              "without gaps, hasNext true except on the last payload and nothing after it. The WorkQueue / StreamItemQueue unit "
-              "obligations of the design are not built; the end-to-end obligations drive those classes through the executor.",
+              "without gaps, hasNext true except on the last payload and nothing after it. Plus a unit obligation on WorkQueue "
+              "alone over symbolic work graphs (forests of 3 groups, tasks in any antichain of groups, 4 outcomes, settlement order).",
               "DESIGN.md section 7, C05"),
     "C07": _c("Bounded symbolic model checking of the real subscribe() / map_source_to_response_event on a deterministic event loop: "
               "0..3 source events with solver-chosen payload kinds (incl. payloads causing field errors and the event None), source "
